@@ -344,6 +344,13 @@ func (x *Exec) applySpec(st *State, fs *FuncSpec, names []string, args []Val, si
 	}
 	bindResults(vars, sig, fs.Results, res)
 	env2 := &Env{x: x, st: st, old: pre, vars: vars}
+	defer func() {
+		// resultof("label") / atreturn("label", e): what the latest call returned and the state it left
+		if st.lastCall == nil {
+			st.lastCall = map[string]*callRec{}
+		}
+		st.lastCall[cc.label] = &callRec{res: res, args: args, snap: st.snap()}
+	}()
 	for _, c := range fs.Ens {
 		env2.what = fmt.Sprintf("%s ensures (%s:%d)", fs.Name, shortFile(c.File), c.Line)
 		if c.Bound != "" {
